@@ -4,7 +4,7 @@ import e2tok
 
 
 def run(tier, seed, ev, jobs):
-    rc = e2tok.run_tokens("C14", ["unwind", "retag"], tier, seed, ev, jobs)
+    rc = e2tok.run_tokens("C14", ["unwind", "retag", "sup"], tier, seed, ev, jobs)
     return e1.combine(rc, e1.run_e1("C14", tier, seed, ev, jobs))
 
 
